@@ -362,24 +362,24 @@ theorem encPrimsC_quiet : Quiet encPrimsC where
   codeflag := fun dd n s s' h => let ⟨_, a, b⟩ := encCodeflagC_step dd n s s' h; same_of_step a b
   constant := fun dd c s s' h => let ⟨_, a, b⟩ := encConstantC_step dd c s s' h; same_of_step a b
 
-theorem encPrimsC_rec : Rec encPrimsC encV encX where
+theorem encPrimsC_rec (vs : List Val) : Rec encPrimsC encV (encXv vs) where
   quiet := encPrimsC_quiet
   numeric := fun dd n sc r s s' h => let ⟨v, a, _⟩ := encNumericC_step dd n sc r s s' h; ⟨v, a.encV⟩
   string := fun dd n s s' h => let ⟨v, a, _⟩ := encStringC_step dd n s s' h; ⟨v, a.encV⟩
   codeflag := fun dd n s s' h => let ⟨v, a, _⟩ := encCodeflagC_step dd n s s' h; ⟨v, a.encV⟩
   constant := fun dd c s s' h => let ⟨v, a, _⟩ := encConstantC_step dd c s s' h; ⟨v, a.encV⟩
   newRefval := fun e n s s' h => let ⟨v, a⟩ := encNewRefvalC_step e n s s' h; ⟨a.descs, v, a.encV⟩
-  lastValues := encLastValues_spec
+  lastValues := fun k s l h hk hl hx => encLastValues_spec k s l h hk hl vs hx
   numericL := fun dd n sc r s s' h => let ⟨_, a, _⟩ := encNumericC_step dd n sc r s s' h; by rw [a.vals]
   stringL := fun dd n s s' h => let ⟨_, a, _⟩ := encStringC_step dd n s s' h; by rw [a.vals]
   codeflagL := fun dd n s s' h => let ⟨_, a, _⟩ := encCodeflagC_step dd n s s' h; by rw [a.vals]
   constantL := fun dd c s s' h => let ⟨_, a, _⟩ := encConstantC_step dd c s s' h; by rw [a.vals]
   newRefvalL := fun e n s s' h => let ⟨_, a⟩ := encNewRefvalC_step e n s s' h; by rw [a.vals]
-  numericX := fun dd n sc r s s' h => let ⟨_, a, _⟩ := encNumericC_step dd n sc r s s' h; a.encX
-  stringX := fun dd n s s' h => let ⟨_, a, _⟩ := encStringC_step dd n s s' h; a.encX
-  codeflagX := fun dd n s s' h => let ⟨_, a, _⟩ := encCodeflagC_step dd n s s' h; a.encX
-  constantX := fun dd c s s' h => let ⟨_, a, _⟩ := encConstantC_step dd c s s' h; a.encX
-  newRefvalX := fun e n s s' h => let ⟨_, a⟩ := encNewRefvalC_step e n s s' h; a.encX
+  numericX := fun dd n sc r s s' h => let ⟨_, a, _⟩ := encNumericC_step dd n sc r s s' h; a.encXv vs
+  stringX := fun dd n s s' h => let ⟨_, a, _⟩ := encStringC_step dd n s s' h; a.encXv vs
+  codeflagX := fun dd n s s' h => let ⟨_, a, _⟩ := encCodeflagC_step dd n s s' h; a.encXv vs
+  constantX := fun dd c s s' h => let ⟨_, a, _⟩ := encConstantC_step dd c s s' h; a.encXv vs
+  newRefvalX := fun e n s s' h => let ⟨_, a⟩ := encNewRefvalC_step e n s s' h; a.encXv vs
   setRegs := encV_setRegs
   addLink := encV_addLink
   setRegsX := fun _ _ x => x
